@@ -7,6 +7,9 @@ fn main() {
         Some("check") => driver::check_main(&args[1..]),
         Some("replay") => driver::replay_main(&args[1..]),
         Some("selftest") => scv::selftest::main(&args[1..]),
+        Some("gen-c17-corpus") => scv::selftest::gen_c17_corpus(&args[1..]),
+        Some("gen-corpus") => scv::selftest::gen_corpus(&args[1..]),
+        Some("fresh") => scv::selftest::fresh(&args[1..]),
         Some("probe") => scv::selftest::probe(&args[1..]),
         _ => {
             eprintln!("usage: scv check <ID> [--tier quick|thorough] | replay <path> | selftest | probe <evaluator> <expr> [placeholder]");
